@@ -132,6 +132,23 @@ func liWorldGen(r *Run, rng *Rng, w *liWorld, steps int) {
 			tip = bn
 			bn++
 			r.Count("branch:directed-odd-index-rollback")
+			// directed: a block with one VerifyBatches event while the rollup exit tree's root table cannot be read (a transient
+			// fault at the "is this a new value" lookup): the block must fail and be retried — never be accepted without its event
+			{
+				er := common.BytesToHash(rng.Bytes(32))
+				evs := fmt.Sprintf("vb;0;1;%d;%s;%s;%s", rng.Intn(1000), hx(rng.Bytes(32)), hx0(er), hx(rng.Bytes(20)))
+				o := w.exec(r, fmt.Sprintf("blk! %d 5001 %s", bn, evs))
+				if o == "ok" {
+					if vb := w.exec(r, "q lastvb 1"); !strings.Contains(vb, hx(er[:])) {
+						r.Fail(fmt.Sprintf("[C05,C07,C11] block %d was accepted (the last-processed marker moved on) while the rollup exit tree could not be read, and its VerifyBatches event is not stored: last verified batch of rollup 1 is `%s`", bn, vb), append([]string{"new"}, w.lines...))
+					}
+				} else if o2 := w.exec(r, fmt.Sprintf("blk %d %s", bn, evs)); o2 != "ok" {
+					r.Fail("[C07] retrying a well-formed L1 block after a read fault did not succeed: "+o2, append([]string{"new"}, w.lines...))
+				}
+				tip = bn
+				bn++
+				r.Count("branch:directed-verify-batches-under-read-fault")
+			}
 			w.checkAgainstContracts(r, "after a rolled-back block of four updates at an odd index, retried")
 			w.compareWithTwin(r, "after a rolled-back block of four updates at an odd index, retried")
 			continue
@@ -143,6 +160,14 @@ func liWorldGen(r *Run, rng *Rng, w *liWorld, steps int) {
 			b := lo + uint64(rng.Intn(int(tip-lo)+3))
 			if tip > lo && rng.Chance(30) {
 				b = tip // the most common reorg: exactly the last stored block
+			}
+			if rng.Chance(35) {
+				// the reorg transaction fails at the first row of one of its three deletes; the driver retries (the plain reorg below)
+				tbl := []string{"block", "inforoot", "rolluproot"}[rng.Intn(3)]
+				if o := w.exec(r, fmt.Sprintf("reorgF %d %s", b, tbl)); o == "err fault" && !halted {
+					w.compareWithTwin(r, "after a reorg attempt that failed on a "+tbl+" row")
+				}
+				r.Count("branch:reorg-fault")
 			}
 			var lastStored uint64 // the last block row of the store
 			must(w.p.DB().QueryRow("SELECT COALESCE(MAX(num), 0) FROM block").Scan(&lastStored))
